@@ -136,14 +136,16 @@ LayoutD(S)  == { <<Tx(<<a>>, << >>), Tx(<<c>>, <<b>>), Tx(<<e>>, <<d>>)>> :
 \* a spending transaction without outputs, an output-less coinbase
 LayoutF(S)  == { <<Tx(<< >>, << >>)>> } \cup { <<Tx(<<a>>, << >>), Tx(<< >>, <<b>>)>> : a \in S, b \in S }
 
+Tiny == {"empty", "opret", "p2pkh"}
 Singles ==
     LayoutA1(Scripts) \cup LayoutA2(Scripts) \cup LayoutB(Scripts) \cup LayoutF(Scripts)
-    \cup LayoutC(IF Thorough THEN Scripts ELSE Core)
-    \cup LayoutE(IF Thorough THEN Scripts ELSE Core)
-    \cup LayoutD(IF Thorough THEN Core ELSE Mini)
+    \cup LayoutC(IF Thorough THEN Scripts ELSE Mini)
+    \cup LayoutE(IF Thorough THEN Scripts ELSE Mini)
+    \cup LayoutD(IF Thorough THEN Core ELSE Tiny)
 
 \* chains of three blocks over small blocks
-Small == LayoutA1(IF Thorough THEN Mini ELSE {"empty", "p2pkh"}) \cup { <<Tx(<<a>>, << >>), Tx(<<"p2pkh2">>, <<b>>)>> : a \in {"empty", "p2pkh"}, b \in {"empty", "p2pk"} }
+Small == LayoutA1(IF Thorough THEN Mini ELSE {"empty", "p2pkh"})
+         \cup { <<Tx(<<a>>, << >>), Tx(<<"p2pkh2">>, <<b>>)>> : a \in (IF Thorough THEN {"empty", "p2pkh"} ELSE {"p2pkh"}), b \in {"empty", "p2pk"} }
 Chains == { <<x, y, z>> : x \in Small, y \in Small, z \in Small } \cup { <<x, y>> : x \in Small, y \in Small }
 
 None == [none |-> TRUE]
